@@ -36,3 +36,86 @@ package storage
 //@     invariant forall k int :: 0 <= k && k < _i && match(list[k].Value) ==> cntMatch(list, match, k) < i
 //@     invariant forall j int, k int :: 0 <= j && j < len(matches) && 0 <= k && k < _i && match(list[k].Value)
 //@       && cntMatch(list, match, k) == offset + j ==> matches[j] == str(list[k].Value)
+
+// ---------------------------------------------------------------- indexed.go, storage.go (C15)
+// "each [operation is] atomic: a failed or rejected operation leaves no trace". The transaction
+// wrapper commits exactly when the operation reports success, so atomicity needs (1) the wrapper's
+// commit/rollback rule, (2) an operation that reports success only if every write it issued
+// succeeded, and (3) a rejected operation that issues no write at all.
+//
+// The sentinel errors keep their initial (non-nil) values.
+//@ constglobal ErrObjectExists ErrNoObjectExists
+
+// Specification-only flag on a transaction value: some write of it has reported an error.
+//@ func (WriteOperator).Put
+//@   trusted
+//@   modifies gfi(recv, failed, bool)
+//@   ensures gfi(recv, failed, bool) == (old(gfi(recv, failed, bool)) || result != nil)
+//@ func (WriteOperator).Delete
+//@   trusted
+//@   modifies gfi(recv, failed, bool)
+//@   ensures gfi(recv, failed, bool) == (old(gfi(recv, failed, bool)) || result != nil)
+
+// Reads and helpers: assumed to leave modelled memory alone.
+//@ func (*IndexedStore).GetTx
+//@   trusted
+//@   modifies nothing
+//@   ensures result1 == nil ==> result0 != nil
+//@ func (*IndexedStore).dataKey
+//@   trusted
+//@   pure
+//@ func (*IndexedStore).indexKey
+//@   trusted
+//@   pure
+//@ func (Index).ValueOf
+//@   trusted
+//@   modifies nothing
+//@ func (BinaryObject).ObjectID
+//@   trusted
+//@   pure
+//@ func =(encoding.BinaryMarshaler).MarshalBinary
+//@   trusted
+//@   modifies nothing
+
+// putTx (create / put / replace inside a transaction):
+//  - rejected (object exists and replacing is not allowed; object missing and replacing is
+//    required; the lookup failed): the rejection is returned and no write was issued;
+//  - success is reported only if no write of the transaction has failed, and the object's data
+//    was written.
+//@ func (*IndexedStore).putTx
+//@   props C15
+//@   requires s != nil && tx != nil && o != nil && !gfi(tx, failed, bool)
+//@   ensures [rejected-exists] callresult(GetTx, 1) == nil && !allowReplace ==> result == ErrObjectExists && result != nil && !called(Put) && !called(Delete)
+//@   ensures [rejected-lookup] callresult(GetTx, 1) != nil && (callresult(GetTx, 1) != ErrNoObjectExists || requireReplace) ==> result == callresult(GetTx, 1) && !called(Put) && !called(Delete)
+//@   ensures [all-writes-succeeded] result == nil ==> !gfi(tx, failed, bool) && called(Put)
+//@   loop 1
+//@     invariant !gfi(tx, failed, bool) && called(Put)
+
+// DeleteTx: deleting a missing object is a no-op without writes; success is reported only if no
+// write of the transaction has failed.
+//@ func (*IndexedStore).DeleteTx
+//@   props C15
+//@   requires s != nil && tx != nil && !gfi(tx, failed, bool)
+//@   ensures [missing-noop] callresult(GetTx, 1) == ErrNoObjectExists ==> result == nil && !called(Delete)
+//@   ensures [lookup-failed] callresult(GetTx, 1) != nil && callresult(GetTx, 1) != ErrNoObjectExists ==> result == callresult(GetTx, 1) && !called(Delete)
+//@   ensures [all-writes-succeeded] result == nil ==> !gfi(tx, failed, bool)
+//@   loop 1
+//@     invariant !gfi(tx, failed, bool)
+
+// The transaction wrapper: commit exactly when the operation returned nil; a failed operation is
+// never committed (the deferred Rollback discards it) and its error is what the caller gets.
+//@ func (TxOperator).BeginTx
+//@   trusted
+//@   modifies nothing
+//@   ensures result1 == nil ==> result0 != nil
+//@ func (Tx).Commit
+//@   trusted
+//@ func (Tx).Rollback
+//@   trusted
+//@ func DoUpdate
+//@   props C15
+//@   requires o != nil && f != nil
+//@   ensures [commit-iff-success] called(Commit) <==> (callresult(BeginTx, 1) == nil && called(f) && callresult(f, 0) == nil)
+//@   ensures [operation-error-returned] callresult(BeginTx, 1) == nil && callresult(f, 0) != nil ==> result == callresult(f, 0)
+//@   ensures [always-rolled-back] callresult(BeginTx, 1) == nil ==> called(Rollback)
+//@   ensures [begin-error] callresult(BeginTx, 1) != nil ==> result == callresult(BeginTx, 1) && !called(f)
